@@ -62,7 +62,7 @@ def run(tier):
         seg = next(recs[i] for i in range(v["line"] - 1, -1, -1) if recs[i]["ev"] == "Reset")
         rep.violation(v["clause"], v["site"], v["cond"], {"line": v["line"], "config": seg, "event": ev, "trace": trace})
     if res["nviol"] > len(res["viol"]):
-        rep.notes.append("%d violations in total, first %d per shard kept" % (res["nviol"], len(res["viol"])))
+        rep.notes.append("%d violations in total, at most 40 per signature and shard kept, %d kept" % (res["nviol"], len(res["viol"])))
     # 3. binding self-test (on events the main validation accepted)
     if a_common.mark_bad(recs, res):
         selftest(recs, wd)
